@@ -17,7 +17,7 @@ if os.path.isdir(demo):
         dn[:] = [d for d in dn if d not in ("target", ".git")]
         for f in fn:
             p = os.path.join(dp, f)
-            if os.path.getsize(p) < 100_000 and f != "Cargo.lock":
+            if os.path.isfile(p) and os.path.getsize(p) < 100_000 and f != "Cargo.lock":
                 rel = os.path.relpath(p, src)
                 os.makedirs(os.path.dirname(os.path.join(dst, rel)), exist_ok=True)
                 shutil.copy(p, os.path.join(dst, rel))
